@@ -101,7 +101,7 @@ func checkC12(c *Ctx, r *Report) {
 
 // C15 — parameter sets and slice headers (id-domain typing clause only).
 func checkC15(c *Ctx, r *Report) {
-	r.Explanation = "One structural clause (id-domain typing): every lookup in / insertion into a map of sequence parameter sets is keyed by a value from the SPS-id domain " +
+	r.Explanation = "T-VERBATIM: avc.CodecString formats SPS.Profile, SPS.ProfileCompatibility and SPS.Level as loaded (conversions only, no arithmetic); One structural clause (id-domain typing): every lookup in / insertion into a map of sequence parameter sets is keyed by a value from the SPS-id domain " +
 		"(SPS.ParameterID, SPS.SpsID, PPS.SeqParameterSetID) and never by one from the PPS-id domain (PPS.PicParameterSetID, SliceHeader.PicParamID / PicParameterSetId); maps of picture parameter sets the other way round. " +
 		"(L-SIGNEDMOD) where a signed sum that includes a signed Exp-Golomb delta is reduced modulo a constant M (the scaling-list recurrence), the dividend carries a constant bias of at least M; So the slice resolves its PPS by the slice's pps id and the SPS by THAT PPS's sps id. (L-SIBLING) no parser loop fills one of two twin lists (…L0/…L1, …S0/…S1) while deciding with the other list only; (T-SPEC) the sample-aspect-ratio table of avc.GetSARfromIDC equals H.264 Table E-1; (FWD-FIELD) no field-to-field copy between two struct types takes the value of a sibling field when both types have both names (e.g. chroma bit depth filled from luma bit depth). Parsed field values, the cropping formula, slice header length and codec strings are NOT decided."
 	spsDom := map[string]bool{"SPS.ParameterID": true, "SPS.SpsID": true, "PPS.SeqParameterSetID": true}
@@ -197,6 +197,7 @@ func checkC15(c *Ctx, r *Report) {
 	// only active when the table is a package-level variable (it is a local literal today; G4/G8 cover that form)
 	ruleTableReach(c, r, map[string]bool{"avc.aspectRatioTable": true})
 	requireFixture(r, "T-REACH", "tightLookup", func(fc *Ctx, s *Report) { ruleTableReach(fc, s, map[string]bool{"mp4.AC3SampleRates": true}) })
+	ruleCodecStringVerbatim(c, r)
 	if n := ruleSignedMod(c, r, func(f *ssa.Function) bool {
 		return strings.HasPrefix(SSAFuncName(f), "avc.") || strings.HasPrefix(SSAFuncName(f), "hevc.")
 	}); n < 1 {
